@@ -244,6 +244,44 @@ func checkWrapper(c *Ctx, a *sketchAnchors, w wrapperSpec) int {
 		ws := p.Writes()
 		exp := fmt.Sprintf("inner %s first with the caller's arguments; statistics %s only after it succeeded; inner error returned unchanged", w.inner, w.stat)
 		if len(ws) == 0 || ws[0].Kind != "call" || !isInner(ws[0].Call) {
+			// the inner operation written out: for an inner operation that cannot fail and has one way through it, the
+			// wrapper may perform that way's state changes itself on the inner sketch — the same changes, in the same
+			// order — and then the statistics operation
+			if !innerHasErr && w.stat != "" {
+				if innerFn := c.P.DeclaredMethod(a.DDSketch, w.inner); innerFn != nil && len(w.innerArgs) == 0 {
+					ips, okI := pathsOf(c.P, innerFn, nil, execOpts{MaxVisits: 1, Pure: c.Mod.PureCall, InlineCallee: inlineNewHelpers})
+					if okI && len(ips) == 1 {
+						sig := func(e Effect, inner bool) string {
+							k := ""
+							switch e.Kind {
+							case "store":
+								k = "store " + e.Addr.Key() + " <- " + e.Val.Key()
+							case "call":
+								k = "call " + e.Call.Key()
+							default:
+								k = e.Kind
+							}
+							if inner {
+								k = strings.ReplaceAll(k, "param:0", "field:"+a.innerFld+"(param:0)")
+							}
+							return k
+						}
+						iw := ips[0].Writes()
+						same := len(iw) > 0 && len(ws) == len(iw)+1
+						if same {
+							for j := range iw {
+								if sig(iw[j], true) != sig(ws[j], false) {
+									same = false
+								}
+							}
+						}
+						if same && ws[len(iw)].Kind == "call" && isStat(ws[len(iw)].Call) {
+							c.R.okay(w.rule, key, name, c.fpos(f), exp, "the inner "+w.inner+" written out (the same state changes in the same order), then "+w.stat)
+							continue
+						}
+					}
+				}
+			}
 			found := "first state-changing effect: " + describeWrites(p)
 			// an inner call that happens to be pure is still acceptable as first call
 			var firstCall *Term
